@@ -51,6 +51,7 @@ def frame_cases(draw):
           'el': draw(st.sampled_from(sorted(NEWVAL))), 'vdt': draw(st.sampled_from(['int64', 'float64', '<U2', 'bool', 'object'])),
           'fill': draw(st.sampled_from([None, 'default', -1, 'ff'])), 'keep': draw(st.integers(0, 2 ** 12)),
           'dt': draw(st.sampled_from(['int64', 'float64', 'object', 'bool', '<U8', 'float32', 'complex128'])),
+          'aform': draw(st.sampled_from(['std', 'map', 'std', 'seq'])), 'dspec': draw(st.sampled_from(['str', 'npdtype', 'type'])),
           'how': draw(st.sampled_from(['func', 'dict', 'list', 'auto'])), 'axis': draw(st.sampled_from(['index', 'columns', 'both'])),
           'name': draw(st.sampled_from(['nn', None, ('a', 1), 0])), 'iname': draw(st.sampled_from(['__skip__', 'in', None])),
           'after': draw(st.booleans()), 'ivk': draw(st.sampled_from(['series', 'frame'])),
@@ -82,7 +83,7 @@ def frame_cases(draw):
         case['rk'], case['ck'] = draw(st.one_of(st.none(), gen.iloc_key(n))), draw(st.one_of(st.none(), gen.iloc_key(m)))
     elif iface == 'astype':
         case['ck'] = draw(st.one_of(st.none(), gen.iloc_key(m)))
-        case['dt'] = ch['dt']
+        case['dt'], case['aform'], case['dspec'] = ch['dt'], ch['aform'], ch['dspec']
     elif iface == 'relabel':
         case['how'], case['axis'], case['keep'] = ch['how'], ch['axis'], ch['keep']
     elif iface == 'rename':
@@ -367,21 +368,43 @@ def check_frame(case):
         cp = list(range(m)) if case['ck'] is None else gen.positions_of(case['ck'], m)[0]
         if not cp:
             raise Discard('empty selection')
+        aform = case.get('aform', 'std')
+        if aform == 'map' and rec['columns']['kind'] == 'ih':
+            aform = 'std'
+        rot = ['float64', 'int64', 'float32', 'object', 'complex128', 'bool', '<U8']
+        base = rot.index(case['dt'])
+        # the mapping / sequence forms give every addressed column a dtype of its own
+        col_dt = {j: (rot[(base + q) % len(rot)] if aform in ('map', 'seq') else case['dt']) for q, j in enumerate(sorted(set(cp)))}
         for j in cp:
             try:
                 with np.errstate(all='ignore'):
-                    conv = cols[j].astype(case['dt'])
+                    conv = cols[j].astype(col_dt[j])
             except Exception:  # noqa: BLE001
                 raise Discard('NumPy cannot convert the column')
             exp_cols[j] = arr_list(conv)
             exp_dt[j] = conv.dtype
             untouched.discard(j)
         addressed_cells = len(cp) * n
-        if case['ck'] is None:
-            r = lib(lambda: f.astype(case['dt']))
+        # the dtype is given as a string, as a np.dtype object or as a Python / NumPy type
+        def _spec(dt):
+            if case.get('dspec') == 'npdtype':
+                return np.dtype(dt)
+            if case.get('dspec') == 'type':
+                return {'int64': int, 'float64': float, 'object': object, 'bool': bool, 'float32': np.float32, 'complex128': complex}.get(dt, dt)
+            return dt
+        spec = _spec(case['dt'])
+        classes.append('astype:%s/%s' % (aform, case.get('dspec', 'str')))
+        if aform == 'map':
+            # the call form with a mapping label -> dtype (only the listed columns change)
+            r = lib(lambda: f.astype({clr[j]: _spec(col_dt[j]) for j in cp}))
+        elif aform == 'seq':
+            # the call form with one specifier per column, None for the columns left alone
+            r = lib(lambda: f.astype([_spec(col_dt[j]) if j in col_dt else None for j in range(m)]))
+        elif case['ck'] is None:
+            r = lib(lambda: f.astype(spec))
         else:
             ckey = _key_for_route('iloc' if route == 'iloc' else 'loc', clr, case['ck'], cp, isinstance(case['ck'], (int, np.integer)))
-            r = lib(lambda: f.astype[sf.ILoc[case['ck']] if route == 'iloc' else ckey](case['dt']))
+            r = lib(lambda: f.astype[sf.ILoc[case['ck']] if route == 'iloc' else ckey](spec))
     elif iface == 'relabel':
         def mapped(labels, real):
             if case['how'] == 'func':
@@ -467,6 +490,11 @@ def check_frame(case):
         for j, dt in enumerate(exp_dt):
             if dt is not None and got_cols[j].dtype != dt:
                 raise Failure('untouched-dtype', 'insert: column %d dtype %s expected %s' % (j, got_cols[j].dtype, dt))
+    if iface in ('assign', 'assign_bloc', 'drop', 'mask', 'astype', 'insert') and isinstance(r, sf.Frame):
+        # the names of the two axes are not addressed by these interfaces
+        for axn, a, b in (('index', f.index, r.index), ('columns', f.columns, r.columns)):
+            if obs.canon_name(a.name) != obs.canon_name(b.name):
+                raise Failure('axis-name', '%s: the %s name %r became %r' % (iface, axn, a.name, b.name))
     if iface == 'rename' and case['iname'] != '__skip__':
         if not eq(obs.canon_name(r.index.name), canon(case['iname'])):
             raise Failure('name', 'rename(index=%r): index name %r' % (case['iname'], r.index.name))
@@ -513,7 +541,7 @@ def frame_value_cases(draw):
 @st.composite
 def series_cases(draw):
     iface = draw(st.sampled_from(['assign', 'insert', 'assign', 'drop', 'mask', 'astype', 'relabel', 'rename']))  # decisive choice first
-    rec = draw(gen.series_recipe(min_size=1, max_size=7, kinds=KINDS, index_kinds=('auto', 'int', 'str', 'date', 'ih') if iface != 'insert' else ('int', 'str')))
+    rec = draw(gen.series_recipe(min_size=1, max_size=7, kinds=KINDS, index_kinds=('auto', 'int', 'str', 'date', 'ih') if iface != 'insert' else ('int', 'str', 'int', 'str', 'date')))
     n = len(rec['index']['labels'])
     case = {'rec': rec, 'iface': iface, 'route': draw(st.sampled_from(['iloc', 'loc'])), 'k': draw(gen.iloc_key(n)),
             'vk': draw(st.sampled_from(['element', 'array', 'series', 'apply'])), 'el': draw(st.sampled_from(sorted(NEWVAL))),
@@ -609,9 +637,11 @@ def check_series(case):
         neg = bool(case['keep'] & 2)
         strs = rec['index']['kind'] == 'str'
         new_labels = ['__i0__', '__i1__'] if strs else [90001, 90002]
+        if rec['index']['kind'] == 'date':  # a date-typed index keeps its class and takes date labels
+            new_labels = [np.datetime64('2199-01-01'), np.datetime64('2199-01-02')]
         if any(eq(canon(x), canon(y)) for x in new_labels for y in il):
             raise Discard('label collision')
-        ins = sf.Series(_arr(_vals(2, case['vdt'], 4), case['vdt']), index=new_labels)
+        ins = sf.Series(_arr(_vals(2, case['vdt'], 4), case['vdt']), index=sf.IndexDate(new_labels) if rec['index']['kind'] == 'date' else new_labels)
         ikey = ilr[pos] if route == 'loc' else sf.ILoc[pos - n if neg else pos]
         at = pos + 1 if after else pos
         exp_il = il[:at] + [canon(x) for x in new_labels] + il[at:]
@@ -629,8 +659,12 @@ def check_series(case):
         raise Failure('mutated', 'Series %s changed the container it was called on' % iface)
     obs.LOOSE_MISSING[0] = True
     obs.expect_series(r, exp_il, exp_vals, 'Series.' + iface, name=exp_name)
+    if iface == 'insert' and type(r.index) is not type(s.index):
+        raise Failure('index-class', 'Series.insert: index class %s became %s' % (type(s.index).__name__, type(r.index).__name__))
     if exp_dt is not None and r.values.dtype != exp_dt and not (exp_dt.kind in 'US' and r.values.dtype.kind == exp_dt.kind):
         raise Failure('dtype', 'Series.%s: dtype %s expected %s' % (iface, r.values.dtype, exp_dt))
+    if iface in ('assign', 'drop', 'mask', 'astype', 'insert') and obs.canon_name(s.index.name) != obs.canon_name(r.index.name):
+        raise Failure('axis-name', 'Series.%s: the index name %r became %r' % (iface, s.index.name, r.index.name))
     return {'nt': 0 < len(p) < n, 'cls': classes}
 
 
